@@ -65,3 +65,21 @@ func VerifCountAll(db *MetaDB) (int, error) {
 	}
 	return n, it.Error()
 }
+
+// VerifDumpAll renders every raw key/value pair of the engine (hex), in key order.
+func VerifDumpAll(db *MetaDB) ([]string, error) {
+	it, err := db.engine.NewIter(engine.Span{}, engine.IterOptions{})
+	if err != nil {
+		return nil, err
+	}
+	defer it.Close()
+	var out []string
+	for ok := it.First(); ok; ok = it.Next() {
+		v, err := it.Value()
+		if err != nil {
+			return nil, err
+		}
+		out = append(out, hex.EncodeToString(it.Key())+"="+hex.EncodeToString(v))
+	}
+	return out, it.Error()
+}
